@@ -19,7 +19,7 @@ static Verdict runCase(const EncCase& c, Info& info)
     enc.setDeviceId(c.dev);
     enc.setStreamId(c.stream);
     runPriorCalls(enc, c);
-    auto frames = enc.encode(batch.begin(), batch.end(), lib::DataContext{c.minB, c.maxB});
+    auto frames = encodeVia(enc, batch, lib::DataContext{c.minB, c.maxB}, c.overload);
 
     lib::Decoder dec;
     std::vector<std::shared_ptr<lib::Packet>> out;
@@ -52,6 +52,10 @@ static Verdict runCase(const EncCase& c, Info& info)
     EncClasses k = classify(c, lengths);
     if (!c.prior.empty())
         info.tag("encoder_had_earlier_calls");
+    {
+        static const char* ov[] = {"overload_packet_iterators", "overload_shared_ptr_iterators", "overload_forward_list_iterators", "overload_single_packet"};
+        info.tag(ov[(c.overload % 4 == 3 && c.packets.size() != 1) ? 0 : c.overload % 4]);
+    }
     if (k.segmented)
         info.tag("segmented");
     if (k.aggregated)
